@@ -832,6 +832,13 @@ func (p *Parser) trimEndSemis() {
 
 func (p *Parser) Parse() (Statement, error) {
 	p.trimEndSemis()
+	// A statement that ends inside a quoted literal is truncated, it must
+	// not be executed with whatever the literal holds so far
+	for _, tok := range p.toks {
+		if tok.Unclosed {
+			return nil, NewSyntaxError(tok.Pos, "Missing closing quote")
+		}
+	}
 	if p.numToks == 0 {
 		return nil, NewSyntaxError(-1, "Expect put, delete, select or where keyword")
 	}
